@@ -252,7 +252,8 @@ def field_candidates(ch, k, row):
     if k <= 3:
         return list(range(1 << k))
     top = (1 << k) - 1
-    return sorted({0, 1, 2, 3, 4, 5, 8, top, top - 1, 1 << (k - 1), (1 << (k - 1)) - 1, (1 << (k - 1)) + 1} & set(range(top + 1)))
+    extra = {0x10, 0x11, 0x12, 0x13, 0x16, 0x17, 0x1A, 0x1B, 0x1F} if k == 5 else set()      # 5-bit fields are often mode numbers
+    return sorted(({0, 1, 2, 3, 4, 5, 8, top, top - 1, 1 << (k - 1), (1 << (k - 1)) - 1, (1 << (k - 1)) + 1} | extra) & set(range(top + 1)))
 
 
 def field_products(mon, spec):
